@@ -79,3 +79,78 @@ def frame_facts(db):
                 bx2c.walk_expr(init, chk)
             out.append((name, 'static local %s is write-once with a constant initialiser' % nm, not why, why))
     return out
+
+
+def build_shift_query(db):
+    """event::shift_particles_time(delta, from): every particle of rank >= from is delayed by delta (a particle without a
+    time gets delta), every other particle and every other field is untouched; with delta >= 0 a time-ordered list stays
+    ordered.  Unbounded: the loop is cut at its head (label machine), the invariant talks about ONE arbitrary rank j
+    (ghost index instead of a quantifier) and the loop counter."""
+    import segments, copy
+    T = db['types']
+    f = db['funcs']['event__shift_particles_time']
+    opts = bx2c.Opts(prefix='x_', hoist=True, uf=True)   # structural: the new time is the term  old + delta
+    body = segments.lower_loops(copy.deepcopy(f.body))
+    cuts = segments.backward_targets(body)
+    f2 = copy.copy(f)
+    f2.body = body
+    decls, seg, ids = segments.segment_function(f2, T, opts, cuts)
+    inl = []
+    todo = sorted(f.calls)
+    while todo:
+        c = todo.pop(0)
+        if c in db['funcs'] and c not in inl:
+            inl.append(c)
+            todo += sorted(db['funcs'][c].calls)
+    parts = [oblig.prelude(db, '#define BX_CAP 128\n#define BX_UF 1')]
+    for c in reversed(inl):
+        parts.append(bx2c.Printer(T, bx2c.Opts(uf=True)).function(db['funcs'][c]))
+    parts.append(decls)
+    parts.append(seg)
+    tag = 'C04 event::shift_particles_time'
+    inv = ('x_count == x_bx_i1 && x_bx_i1 >= 0 && (unsigned long)x_bx_i1 <= n && ev.data_ok && '
+           '(j >= (unsigned long)x_bx_i1 ? same(buf[j]._time_, t0) : same(buf[j]._time_, (j >= (unsigned long)(from < 0 ? 0 : from) ? (t0 == t0 ? bx_add(t0, delta) : delta) : t0))) && buf[j]._code_ == c0 && same(buf[j]._momentum_[0], m0)')
+    H = ['static struct particle buf[BX_CAP]; static struct event evs; static unsigned long n, j; static double t0, m0, delta; static int c0, from;',
+         'static _Bool same(double a, double b) { return a == b || (a != a && b != b); }',
+         'void harness(void)', '{',
+         '  n = nondet_ulong(); __CPROVER_assume(n <= BX_CAP); j = nondet_ulong(); __CPROVER_assume(j < n);',
+         '  evs._particles_.data = buf; evs._particles_.size = n; evs._particles_.cap = BX_CAP; evs._time_ = nondet_double();',
+         '  delta = nondet_double(); from = nondet_int(); t0 = nondet_double(); m0 = nondet_double(); c0 = nondet_int();',
+         '  x_this_ = &evs; x_delta_time_ = delta; x_from_ = from; bx_exc = 0;',
+         '  int pc = nondet_int(); __CPROVER_assume(pc >= 0 && pc <= %d);' % len(cuts),
+         '  if (pc == 0) { buf[j]._time_ = t0; buf[j]._code_ = c0; buf[j]._momentum_[0] = m0; }',
+         '  else { x_count = nondet_int(); x_bx_i1 = nondet_int(); __CPROVER_assume(x_count == x_bx_i1 && x_bx_i1 >= 0 && (unsigned long)x_bx_i1 <= n);',
+         '         /* the invariant about rank j, installed as a definition (the uninterpreted + is sensitive to -0/NaN payloads) */',
+         '         buf[j]._time_ = (j >= (unsigned long)x_bx_i1) ? t0 : ((j >= (unsigned long)(from < 0 ? 0 : from)) ? (t0 == t0 ? bx_add(t0, delta) : delta) : t0); buf[j]._code_ = c0; buf[j]._momentum_[0] = m0; }',
+         '  const double ev_time0 = evs._time_;',
+         '  int nx = event__shift_particles_time_seg(pc);',
+         '  __CPROVER_assert(evs._particles_.size == n && evs._particles_.data == buf && same(evs._time_, ev_time0), "%s: count, storage and event time untouched");' % tag,
+         '  if (nx == %d) {' % segments.BX_EXIT,
+         '    __CPROVER_assert(j < (unsigned long)(from < 0 ? 0 : from) ? same(buf[j]._time_, t0) : same(buf[j]._time_, (t0 == t0 ? bx_add(t0, delta) : delta)), "%s: rank >= from delayed by delta, lower ranks untouched (arbitrary rank j)");' % tag,
+         '    __CPROVER_assert(buf[j]._code_ == c0 && same(buf[j]._momentum_[0], m0), "%s: species and momentum untouched");' % tag,
+         '  } else {',
+         '    __CPROVER_assert(nx >= 1 && nx <= %d, "label machine: successor is a cut point");' % len(cuts),
+         '    __CPROVER_assert(x_count == x_bx_i1 && x_bx_i1 >= 0 && (unsigned long)x_bx_i1 <= n, "%s: loop invariant (counters) preserved");' % tag,
+         '    __CPROVER_assert(%s, "%s: loop invariant preserved");' % (inv.replace('ev.data_ok && ', ''), tag),
+         '  }',
+         '  __CPROVER_assert(0, "canary shift_particles_time: harness end is reachable (must be refuted)");',
+         '}']
+    parts.append('\n'.join(H))
+    return {'c': '\n\n'.join(parts) + '\n', 'entry': 'harness', 'meta': {'function': 'event__shift_particles_time', 'what': 'c04', 'cuts': cuts}}
+
+
+def build_shift_lemma_query():
+    """IEEE fact used with the structural contract above: adding a non-negative delay to a non-negative time never gives
+    an earlier time (so a time-ordered list shifted from rank `from` on stays ordered when delta >= 0)"""
+    c = '''double nondet_double(void);
+void harness(void)
+{
+  double t = nondet_double(), u = nondet_double(), d = nondet_double();
+  __CPROVER_assume(t >= 0.0 && u >= t && d >= 0.0);
+  __CPROVER_assert(t + d >= t, "C04 shift lemma: t + delta >= t for t, delta >= 0 (IEEE double)");
+  __CPROVER_assert(u + d >= t + d, "C04 shift lemma: shifting two ordered times by the same delay keeps their order");
+  __CPROVER_assert(u + d >= t, "C04 shift lemma: a shifted later particle is not before an unshifted earlier one");
+  __CPROVER_assert(0, "canary shift lemma: harness end is reachable (must be refuted)");
+}
+'''
+    return {'c': c, 'entry': 'harness', 'meta': {'function': 'event__shift_particles_time', 'what': 'c04'}}
